@@ -14,6 +14,7 @@ FEATSETS = {
     'noauto': dict(fin=1, weak=1, clean=1, auto=0),
     'bare':   dict(fin=0, weak=0, clean=0, auto=0),
     'pedantic': dict(fin=1, weak=1, clean=1, auto=1, pedantic=1),
+    'weaknoclean': dict(fin=1, weak=1, clean=0, auto=1),
 }
 
 
